@@ -20,7 +20,7 @@ fn spec0(tier: Tier) -> RunSpec {
         8,
         "the C04 input space (G-REQ with mutations, three buffer sizes, three application kinds) on both entry points and in both CORS modes (allow-all on; allow-all off with a configured origin list). \
 Oracle on the M-HTTP header multiset of every response: exactly once each X-Content-Type-Options: nosniff, X-Frame-Options: SAMEORIGIN, Cache-Control containing no-store and no-cache, Accept-Ranges: bytes, \
-a non-empty Accept-CH, and Vary whose comma-separated members include Origin. A quarter of the production-entry cases with the default buffer and the real application are sent to the release binary over loopback instead of Server::process on the mock transport (same oracle; a server-side panic shows as a connection closed without response bytes). Non-trivial = status != 200 or response to a mutated/hostile request; distinct by case. Crashed requests are C04's.",
+a non-empty Accept-CH, and Vary whose comma-separated members include Origin. A quarter of the production-entry cases with the default buffer and the real application are sent to the release binary over loopback instead of Server::process on the mock transport (same oracle; a server-side panic shows as a connection closed without response bytes). Section cold-start-burst: a fresh server receives its first 4..48 requests simultaneously and three more one after the other; every response must satisfy the same invariant (lazily initialised state is set up under concurrency). Non-trivial = status != 200 or response to a mutated/hostile request; distinct by case. Crashed requests are C04's.",
         &["a response produced by a custom Application that builds its own header list is outside the statement; the Fixed application used here calls Header::get_header_list like the documented example"],
         if tier == Tier::Quick { 900 } else { 14400 },
     )
@@ -43,6 +43,85 @@ pub fn set_cors(restricted: bool) {
     }
 }
 
+/// The header multiset invariant of C10 on one parsed response.
+pub fn header_problems(r: &crate::fw::mhttp::Resp, context: &str) -> Vec<(String, String)> {
+    let mut problems: Vec<(String, String)> = vec![];
+    let mut want = |name: &str, ok: &dyn Fn(&str) -> bool, what: &str| {
+        let all = r.get_all(name);
+        let slug = name.to_lowercase();
+        if all.is_empty() { problems.push((format!("missing:{}", slug), format!("status {} response lacks {}; {}", r.status, name, context))); }
+        else if all.len() > 1 { problems.push((format!("twice:{}", slug), format!("{} appears {} times: {:?}; {}", name, all.len(), all, context))); }
+        else if !ok(all[0]) { problems.push((format!("wrong-value:{}", slug), format!("{}: {:?} ({}); {}", name, all[0], what, context))); }
+    };
+    want("X-Content-Type-Options", &|v| v == "nosniff", "must be nosniff");
+    want("X-Frame-Options", &|v| v == "SAMEORIGIN", "must be SAMEORIGIN");
+    want("Cache-Control", &|v| { let d: Vec<String> = v.split(',').map(|x| x.trim().to_lowercase()).collect(); d.iter().any(|x| x == "no-store") && d.iter().any(|x| x == "no-cache") }, "must contain no-store and no-cache");
+    want("Accept-Ranges", &|v| v == "bytes", "must be bytes");
+    want("Accept-CH", &|v| !v.trim().is_empty(), "must advertise client hints");
+    want("Vary", &|v| v.split(',').any(|m| m.trim().eq_ignore_ascii_case("Origin")), "must name Origin");
+    problems
+}
+
+/// A server nobody has talked to yet receives its first requests all at once, then a few one after the other: whatever the server sets up lazily on
+/// first use (caches of header lists, one-time initialisation) is then set up under concurrency, and every response - then and afterwards - must
+/// still carry each header exactly once.
+#[derive(Clone, Debug, Serialize, Deserialize)]
+pub struct BurstCase { pub workers: u8, pub burst: u8, pub targets: Vec<u8> }
+
+const BURST_TARGETS: [&str; 8] = ["/", "/a.txt", "/missing", "/sub/", "/page", "/style.css", "/form-get-method?a=b", "/big.bin"];
+
+pub fn eval_burst(ctx: &Ctx, root: &std::path::Path, c: &BurstCase) -> Verdict {
+    use std::io::Write;
+    let srv = match crate::fw::net::Server::start(&crate::fw::net::ServerOpts::new(root, c.workers.max(1) as u32)) { Ok(s) => s, Err(e) => { ctx.inconclusive(&format!("server start: {}", e)); return Verdict::Discard; } };
+    let n = c.burst.max(2) as usize;
+    let limit = std::time::Duration::from_secs(10);
+    if c.burst % 3 == 2 {
+        // shape C: a fresh harness process handles the first requests on threads released by one barrier (Server::process on the mock transport):
+        // the tightest start this harness can give; the process has served nothing before
+        drop(srv);
+        let exe = match std::env::current_exe() { Ok(e) => e, Err(_) => return Verdict::Discard };
+        let mut cmd = std::process::Command::new(exe);
+        cmd.arg("cold-burst").arg(root).arg(n.min(32).to_string());
+        for i in 0..c.targets.len().max(1) { let t = BURST_TARGETS[c.targets.get(i).copied().unwrap_or(0) as usize % BURST_TARGETS.len()]; cmd.arg(crate::fw::util::escape_bytes(format!("GET {} HTTP/1.1\r\nHost: localhost\r\nOrigin: https://o.example\r\n\r\n", t).as_bytes())); }
+        let out = match cmd.stderr(std::process::Stdio::null()).output() { Ok(o) => o, Err(_) => return Verdict::Discard };
+        let mut problems = vec![];
+        for line in String::from_utf8_lossy(&out.stdout).lines() {
+            let bytes = crate::fw::util::unescape_bytes(line);
+            if let Ok(r) = crate::fw::mhttp::parse(&bytes) { problems.extend(header_problems(&r, &format!("first requests of a fresh process, {} threads released together (in-process)", n.min(32)))); }
+            if !problems.is_empty() { break; }
+        }
+        return ctx.judge(problems, true, vec!["cold-start-burst", "cold-start-in-process"]);
+    }
+    let mut srv = srv;
+    let request_for = |i: usize| -> Vec<u8> { let t = BURST_TARGETS[c.targets.get(i % c.targets.len().max(1)).copied().unwrap_or(0) as usize % BURST_TARGETS.len()]; format!("GET {} HTTP/1.1\r\nHost: localhost\r\nOrigin: https://o.example\r\n\r\n", t).into_bytes() };
+    let mut conns = vec![];
+    if c.burst % 2 == 0 {
+        // shape A: the requests are written into the listen backlog of the stopped server: when it continues it accepts and dispatches them back to back
+        srv.sigstop();
+        for i in 0..n { if let Ok(mut s) = srv.connect() { let _ = s.write_all(&request_for(i)); conns.push(s); } }
+        srv.sigcont();
+    } else {
+        // shape B: as many connections as there are workers are opened first and left silent until every worker is blocked reading one of them;
+        // then the requests are written in one go, so the workers start handling their first request within microseconds of one another
+        let m = n.min(c.workers.max(1) as usize);
+        for _ in 0..m { if let Ok(s) = srv.connect() { conns.push(s); } }
+        std::thread::sleep(std::time::Duration::from_millis(30));
+        let reqs: Vec<Vec<u8>> = (0..conns.len()).map(request_for).collect();
+        for (s, r) in conns.iter_mut().zip(reqs.iter()) { let _ = s.write_all(r); }
+    }
+    let mut outs: Vec<(String, Vec<u8>)> = conns.into_iter().map(|mut s| ("first requests, simultaneous".to_string(), crate::fw::net::read_all(&mut s, limit).bytes)).collect();
+    for t in ["/", "/a.txt", "/missing"] { outs.push(("after the burst, alone".to_string(), srv.roundtrip(format!("GET {} HTTP/1.1\r\nHost: localhost\r\n\r\n", t).as_bytes(), limit).bytes)); }
+    let mut problems = vec![];
+    for (phase, out) in outs.iter() {
+        match crate::fw::mhttp::parse(out) {
+            Ok(r) => problems.extend(header_problems(&r, &format!("{} on a fresh {}-worker server (burst of {})", phase, c.workers, n))),
+            Err(_) => { if out.is_empty() { ctx.note("burst-connection-without-response"); } }
+        }
+        if !problems.is_empty() { break; }
+    }
+    ctx.judge(problems, true, vec!["cold-start-burst"])
+}
+
 pub fn eval(ctx: &Ctx, c: &Case) -> Verdict {
     set_cors(c.cors_restricted);
     let e = examine(&c.server);
@@ -55,19 +134,7 @@ pub fn eval(ctx: &Ctx, c: &Case) -> Verdict {
         (Err(_), _) => classes.push("panicked-(reported-under-C04)"),
         (_, Err(_)) => classes.push("unparseable-response-(reported-under-C04/C05)"),
         (Ok(_), Ok(r)) => {
-            let mut want = |name: &str, ok: &dyn Fn(&str) -> bool, what: &str| {
-                let all = r.get_all(name);
-                let slug = name.to_lowercase();
-                if all.is_empty() { problems.push((format!("missing:{}", slug), format!("status {} response lacks {}; {}", r.status, name, describe(&e)))); }
-                else if all.len() > 1 { problems.push((format!("twice:{}", slug), format!("{} appears {} times: {:?}; {}", name, all.len(), all, describe(&e)))); }
-                else if !ok(all[0]) { problems.push((format!("wrong-value:{}", slug), format!("{}: {:?} ({}); {}", name, all[0], what, describe(&e)))); }
-            };
-            want("X-Content-Type-Options", &|v| v == "nosniff", "must be nosniff");
-            want("X-Frame-Options", &|v| v == "SAMEORIGIN", "must be SAMEORIGIN");
-            want("Cache-Control", &|v| { let d: Vec<String> = v.split(',').map(|x| x.trim().to_lowercase()).collect(); d.iter().any(|x| x == "no-store") && d.iter().any(|x| x == "no-cache") }, "must contain no-store and no-cache");
-            want("Accept-Ranges", &|v| v == "bytes", "must be bytes");
-            want("Accept-CH", &|v| !v.trim().is_empty(), "must advertise client hints");
-            want("Vary", &|v| v.split(',').any(|m| m.trim().eq_ignore_ascii_case("Origin")), "must name Origin");
+            problems.extend(header_problems(r, &describe(&e)));
             classes.push(match r.status { 200 => "status-200", 204 => "status-204", 206 => "status-206", 400 => "status-400", 403 => "status-403", 404 => "status-404", 416 => "status-416", 500 => "status-500", _ => "status-other" });
             nontrivial = r.status != 200 || hostile(&c.server);
             if let LineClass::MustReject(_) = e.line { classes.push("unparseable-input"); }
@@ -84,6 +151,9 @@ pub fn run(ctx: &Ctx) {
     super::common::binary_begin(ctx, &_tree.root);
     ctx.prop("responses", ctx.share(ctx.scale(40_000, 3_000_000)), strat, |c| eval(ctx, c));
     super::common::binary_end(ctx);
+    let root = _tree.root.clone();
+    let bs = (prop::sample::select(vec![2u8, 4, 8, 16]), 4u8..48, proptest::collection::vec(0u8..8, 1..6)).prop_map(|(workers, burst, targets)| BurstCase { workers, burst, targets });
+    ctx.prop("cold-start-burst", ctx.share(ctx.scale(320, 8000)), bs, |c| eval_burst(ctx, &root, c));
     std::env::set_current_dir("/").ok();
 }
 
@@ -91,5 +161,6 @@ pub fn replay(ctx: &Ctx, _section: &str, case: &Value) -> Verdict {
     crate::fw::inproc::init_env();
     let _tree = match fixed_docroot() { Ok(t) => t, Err(e) => return Verdict::fail("replay-docroot-failed", e.to_string()) };
     if super::common::replay_wants_binary(case) { super::common::binary_begin(ctx, &_tree.root); }
+    if _section == "cold-start-burst" { return match serde_json::from_value::<BurstCase>(case.clone()) { Ok(c) => eval_burst(ctx, &_tree.root, &c), Err(e) => Verdict::fail("replay-unreadable", e.to_string()) }; }
     match serde_json::from_value::<Case>(case.clone()) { Ok(c) => eval(ctx, &c), Err(e) => Verdict::fail("replay-unreadable", e.to_string()) }
 }
